@@ -47,6 +47,10 @@ var c14Templates = []string{
 	`"S?F1"?<U1 1>.`,                    // 35 double-quoted stream/function
 	`S1F1 <BOOLEAN T ~>.`,               // 36 boolean tokens
 	`S1F1 <I8 -?>.`,                     // 37 signed text
+	`S1F1 W /*??`,                       // 38 block comment that may or may not be closed
+	"S1F1 <U1 1> /*?\n.",                // 39 ... after an item
+	`S1F1 <U1 1>. /* ?`,                 // 40 ... after the last message
+	"S1F1 //?",                          // 41 line comment running into the end of input
 }
 
 // c14Hints: the size hints tried wherever a template has a run of '#': small, plausible, absurd,
@@ -81,7 +85,11 @@ func c14Fill(t string) string {
 func c14Check(input string, strict bool) {
 	p := NewParser(WithParserStrictMode(strict))
 	vsymAllocBound(64*len(input) + 4096)
+	// termination and "small polynomial of the input length": the parser may execute at most
+	// 4000*len^2 + 200000 SSA instructions (measured maximum on the unchanged tree is far below)
+	vsymStepBound(4000*len(input)*len(input) + 200000)
 	msgs, err := p.Parse(input)
+	vsymStepBound(0)
 	vsymAllocBound(-1)
 	vsymAssert((msgs == nil) != (err == nil) || (err == nil && msgs != nil), "messages-xor-error")
 	if err != nil {
@@ -148,7 +156,7 @@ func VerifC14_Templates2() {
 		t = c14FirstBatch + vsymChoose(len(c14Templates)-c14FirstBatch)
 	} else {
 		// quick: the templates with one hole (the two-hole ones, 256 x 256 values each, are thorough only)
-		quick := []int{21, 22, 23, 25, 26, 30, 31, 32, 33, 34, 36, 37}
+		quick := []int{21, 22, 23, 25, 26, 30, 31, 32, 33, 34, 36, 37, 38, 39, 40, 41}
 		t = quick[vsymChoose(len(quick))]
 	}
 	c14Region(t)
